@@ -130,10 +130,11 @@ def _run_one(args: tp.Tuple[tp.Dict[str, tp.Any], str, str, tp.FrozenSet[tp.Tupl
             return {'id': v['id'], 'status': 'ok', 'why': 'silent'}
         want_rule = v['expect_rule']
         want_func = v.get('expect_func')
-        hits = [x for x in new if x[0].startswith(want_rule) and (want_func is None or want_func in x[1])]
+        want_rules = (want_rule,) if isinstance(want_rule, str) else tuple(want_rule)
+        hits = [x for x in new if x[0].startswith(want_rules) and (want_func is None or want_func in x[1])]
         if hits:
             return {'id': v['id'], 'status': 'ok', 'why': f'reported {hits[0][0]} at {hits[0][1]}'}
-        already = [x for x in base if x[0].startswith(want_rule) and (want_func is None or want_func in x[1])]
+        already = [x for x in base if x[0].startswith(want_rules) and (want_func is None or want_func in x[1])]
         if already:
             return {'id': v['id'], 'status': 'inapplicable', 'why': 'the current tree already violates this rule at this site'}
         return {'id': v['id'], 'status': 'failed', 'why': f'breaking variant not reported (new violations: {sorted(new)[:3]})'}
